@@ -257,3 +257,19 @@ Example C14_nonvacuous :
   delivered_to s 0 = [0; 1] /\ delivered_to s 1 = [0] /\ st_pc s = StRet /\
   c_spc (callers s 0) = SRet /\ c_spc (callers s 1) = SRet.
 Proof. vm_compute. repeat split; lia. Qed.
+
+(* Non-vacuity of the translation-tie theorems: reachable states sit at the program counters their hypotheses name
+   (a submitter at the checks of Do and at its select, the processing loop in doJob with the worker limit reached). *)
+Example C14_gen_nonvacuous :
+  exists s1 s2 s3 j,
+    run C14_example_cfg init [LAdd 0] = Some s1 /\ c_spc (callers s1 0) = SCheck /\
+    run C14_example_cfg init [LAdd 0; LCheck 0] = Some s2 /\ c_spc (callers s2 0) = SSelect /\
+    run C14_example_cfg init [LAdd 0; LCheck 0; LSend 0; LQAdd; LQNotify; LPTok; LPPop; LPNew;
+                              LAdd 0; LCheck 0; LSend 0; LQAdd; LQNotify; LPPop] = Some s3 /\
+    p_pc s3 = PDo j /\ (active s3 <? maxw C14_example_cfg)%nat = false.
+Proof.
+  eexists. eexists. eexists. exists (0, 1)%nat.
+  split; [vm_compute; reflexivity|]. split; [vm_compute; reflexivity|].
+  split; [vm_compute; reflexivity|]. split; [vm_compute; reflexivity|].
+  split; [vm_compute; reflexivity|]. split; vm_compute; reflexivity.
+Qed.
